@@ -1,2 +1,405 @@
-//! harnesses mounted into the crate (see DESIGN.md 3.1)
+//! Cache-level harnesses on the "parked cache" (DESIGN 3.1): real ShardedMap, real LFUPolicy,
+//! real RingStripe, real Cache and CacheProcessor wired exactly as `finalize()` wires them, with
+//! no thread spawned; the harness plays the processor loop by calling the real
+//! `handle_insert_event / handle_clear_event / handle_cleanup_event`.
+//! Child of `crate::cache::sync`.
 #![allow(dead_code, unused_imports)]
+use super::*;
+use crate::policy::verif_harness::psync::{mk_policy, policy_estimate, policy_len, policy_sum, policy_used};
+use crate::policy::verif_harness::PolicyProcessor;
+use crate::policy::verif_harness::{any_slfu, any_tinylfu, slfu_from, COST_MAX};
+use crate::policy::{SampledLFU, TinyLFU};
+use crate::store::verif_harness::{any_ent, em_ok, raw, store_from, GEnt, NdValidator, Store};
+use crate::ttl::verif_harness::{self as th, any_duration, time_at};
+use crate::verif_env::rec::{CollidingKb, RecCb, TabCoster, NT};
+use crate::verif_env::{chan, clock, hm_from, mrec, HS};
+use crate::verif_nd::{self as nd, harness, vassert, vcover};
+use crate::TransparentKeyBuilder;
+use std::sync::atomic::AtomicU8;
+
+#[cfg(kani)]
+use crate::verif_env::stubs;
+
+pub(crate) type PCache<KB> = Cache<u64, u64, KB, TabCoster, NdValidator, RecCb, HS>;
+pub(crate) type PProc = CacheProcessor<u64, NdValidator, RecCb, HS>;
+
+pub(crate) struct Parked<KB> {
+    pub cache: PCache<KB>,
+    pub proc_: PProc,
+    pub worker: PolicyProcessor<HS>,
+    pub cb: Arc<RecCb>,
+    pub store: Arc<Store>,
+    pub policy: Arc<LFUPolicy<HS>>,
+    pub metrics: Arc<Metrics>,
+}
+
+#[derive(Copy, Clone)]
+pub(crate) struct Cfg {
+    pub ignore_internal_cost: bool,
+    pub metrics: bool,
+    pub buffer_items: usize,
+    pub insert_buf: usize,
+    pub coster: [i64; NT],
+}
+
+pub(crate) fn any_cfg() -> Cfg {
+    Cfg {
+        ignore_internal_cost: nd::any_bool(),
+        metrics: false,
+        buffer_items: 64,
+        insert_buf: 4,
+        coster: [0; NT],
+    }
+}
+
+/// Wire a cache around the given store / policy state exactly as `CacheBuilder::finalize` does,
+/// minus the two `spawn()` calls.
+pub(crate) fn park<KB: KeyBuilder<Key = u64>>(kb: KB, store: Store, admit: TinyLFU, costs: SampledLFU<HS>, cfg: Cfg) -> Parked<KB> {
+    chan::reset(cfg.insert_buf);
+    let (buf_tx, buf_rx) = bounded(cfg.insert_buf);
+    let (stop_tx, stop_rx) = stop_channel();
+    let (clear_tx, clear_rx) = unbounded();
+    let store = Arc::new(store);
+    let metrics = Arc::new(mrec::make(cfg.metrics));
+    let (policy, worker) = mk_policy(admit, costs, metrics.clone());
+    let policy = Arc::new(policy);
+    let coster = Arc::new(TabCoster { tab: cfg.coster, calls: AtomicU8::new(0) });
+    let callback = Arc::new(RecCb::new());
+    let proc_ = CacheProcessor::new(
+        100000,
+        cfg.ignore_internal_cost,
+        Duration::from_millis(500),
+        store.clone(),
+        policy.clone(),
+        buf_rx,
+        stop_rx,
+        clear_rx,
+        metrics.clone(),
+        callback.clone(),
+    );
+    let get_buf = RingStripe::new(policy.clone(), cfg.buffer_items);
+    let cache = Cache {
+        store: store.clone(),
+        policy: policy.clone(),
+        get_buf: Arc::new(get_buf),
+        insert_buf_tx: buf_tx,
+        callback: callback.clone(),
+        key_to_hash: Arc::new(kb),
+        stop_tx,
+        clear_tx,
+        is_closed: Arc::new(AtomicBool::new(false)),
+        coster,
+        metrics: metrics.clone(),
+        _marker: Default::default(),
+    };
+    Parked { cache, proc_, worker, cb: callback, store, policy, metrics }
+}
+
+impl<KB: KeyBuilder<Key = u64>> Parked<KB> {
+    /// the processor takes the next queued item, if any (one iteration of its select! loop)
+    pub fn process_one(&mut self) -> bool {
+        match self.proc_.insert_buf_rx.try_recv() {
+            Ok(item) => {
+                let r = self.proc_.handle_insert_event(Ok(item));
+                vassert!(r.is_ok(), "the processor handles a queued item without error");
+                true
+            }
+            Err(_) => false,
+        }
+    }
+    /// the processor handles a pending clear signal, if any
+    pub fn process_clear(&mut self) -> bool {
+        match self.proc_.clear_rx.try_recv() {
+            Ok(()) => {
+                let r = self.proc_.handle_clear_event();
+                vassert!(r.is_ok(), "the processor handles the clear signal without error");
+                true
+            }
+            Err(_) => false,
+        }
+    }
+    /// run the processor until nothing is pending (quiescence)
+    pub fn drain(&mut self) {
+        let mut i = 0;
+        while i < 5 {
+            let a = self.process_clear();
+            let b = self.process_one();
+            if !a && !b {
+                return;
+            }
+            i += 1;
+        }
+        vassert!(self.proc_.insert_buf_rx.try_recv().is_err(), "drain bound large enough");
+    }
+    /// one cleanup tick
+    pub fn tick(&mut self) {
+        let r = self.proc_.handle_cleanup_event(Ok(std::time::Instant::now()));
+        vassert!(r.is_ok(), "the processor handles a cleanup tick without error");
+    }
+    /// enqueue an item the way the success arm of try_insert_in's select! does
+    pub fn enqueue(&self, item: Item<u64>) -> bool {
+        self.cache.insert_buf_tx.try_send(item).is_ok()
+    }
+    /// I-SP for key k: resident iff charged
+    pub fn sp_ok(&self, k: u64) -> bool {
+        raw(&self.store, k).is_some() == self.policy.contains(&k)
+    }
+    pub fn item_size(&self) -> i64 {
+        self.store.item_size() as i64
+    }
+}
+
+/// Arbitrary quiescent cache state with up to two residents (values tagged 0 and 1) that
+/// satisfies I-SP (resident <=> charged), I-P (used == sum) and I-EM (expiry index), arbitrary
+/// popularity state. `ttl`: 0 no TTLs, 2 mixed.
+pub(crate) fn any_parked<KB: KeyBuilder<Key = u64>>(kb: KB, ttl: u8, cfg: Cfg, forced: Option<bool>) -> (Parked<KB>, Option<GEnt>, Option<GEnt>, [Option<(u64, i64)>; 3]) {
+    let now = clock::set_nd(1000, th::SECS_MAX);
+    let mut a = if nd::any_bool() { Some(any_ent(now, ttl, 4)) } else { None };
+    let mut b = if nd::any_bool() { Some(any_ent(now, ttl, 4)) } else { None };
+    if let Some(x) = a.as_mut() {
+        x.val = 0;
+    }
+    if let Some(y) = b.as_mut() {
+        y.val = 1;
+    }
+    if let (Some(x), Some(y)) = (a, b) {
+        nd::assume(x.key != y.key);
+    }
+    let store = store_from(a, b, None, NdValidator::new(forced));
+    let mut ents: [Option<(u64, i64)>; 3] = [None, None, None];
+    let mut sum = 0i64;
+    if let Some(x) = a {
+        let c = nd::any_i64_in(0, COST_MAX);
+        ents[0] = Some((x.key, c));
+        sum += c;
+    }
+    if let Some(y) = b {
+        let c = nd::any_i64_in(0, COST_MAX);
+        ents[1] = Some((y.key, c));
+        sum += c;
+    }
+    let _ = sum;
+    let costs = slfu_from(ents, nd::any_i64_in(-COST_MAX, COST_MAX));
+    let admit = any_tinylfu(1, 6);
+    (park(kb, store, admit, costs, cfg), a, b, ents)
+}
+
+#[cfg(kani)]
+fn instant_now_stub() -> std::time::Instant {
+    unsafe { std::mem::zeroed() }
+}
+
+/// stub set of every cache-level harness (each stub is listed in the evidence)
+macro_rules! cache_harness {
+    ([$($k:meta),* $(,)?] fn $name:ident() $body:block) => {
+        harness! {
+            [kani::stub(std::sync::Arc::drop_slow, stubs::arc_drop_slow),
+             kani::stub(parking_lot::RawMutex::lock_slow, stubs::mutex_lock_slow),
+             kani::stub(parking_lot::RawMutex::unlock_slow, stubs::mutex_unlock_slow),
+             kani::stub(parking_lot::RawRwLock::lock_shared_slow, stubs::rw_lock_shared_slow),
+             kani::stub(parking_lot::RawRwLock::lock_exclusive_slow, stubs::rw_lock_exclusive_slow),
+             kani::stub(parking_lot::RawRwLock::unlock_shared_slow, stubs::rw_unlock_shared_slow),
+             kani::stub(parking_lot::RawRwLock::unlock_exclusive_slow, stubs::rw_unlock_exclusive_slow),
+             kani::stub(crate::metrics::Metrics::add, mrec::add),
+             kani::stub(crate::metrics::Metrics::is_op, mrec::is_op),
+             kani::stub(crate::metrics::Metrics::clear, mrec::clear),
+             kani::stub(crate::metrics::Metrics::track_eviction, mrec::track_eviction),
+             kani::stub(crossbeam_channel::Sender::try_send, chan::try_send),
+             kani::stub(crossbeam_channel::Sender::send, chan::send),
+             kani::stub(crossbeam_channel::Receiver::try_recv, chan::try_recv),
+             kani::stub(crossbeam_channel::internal::try_select, chan::try_select),
+             kani::stub(std::time::Instant::now, instant_now_stub),
+             kani::stub(std::fmt::format, stubs::fmt_format),
+             kani::stub(crate::policy::sync::LFUPolicy::add, crate::policy::verif_harness::psync::add_contract),
+             $($k),*]
+            fn $name() $body
+        }
+    };
+}
+
+// ------------------------------------------------------------------------------------------------
+// One processor event from an arbitrary quiescent state: C06 (I-SP), C08 (callback accounting),
+// C16 (charge), C01 (I-P at cache level)
+// ------------------------------------------------------------------------------------------------
+
+pub(crate) const EV_NEW: u8 = 0;
+pub(crate) const EV_UPDATE: u8 = 1;
+pub(crate) const EV_DELETE: u8 = 2;
+pub(crate) const EV_TICK: u8 = 3;
+
+fn proc_step(ev: u8) {
+    let cfg = any_cfg();
+    // residents carry TTLs only in the tick harness (the expiry index is decided at store level:
+    // c04_em_store_*, c05_em_*); keeps the symbolic state of the other events small
+    let ttl_class = if ev == EV_TICK { 2 } else { 0 };
+    let (mut p, a, b, ents) = any_parked(TransparentKeyBuilder::<u64>::default(), ttl_class, cfg, Some(true));
+    let k = nd::any_u64();
+    let resident_before = raw(&p.store, k);
+    let charge_before = p.policy.cost(&k);
+    let isz = if cfg.ignore_internal_cost { 0 } else { p.item_size() };
+    if ev == EV_NEW {
+        let cost = nd::any_i64_in(0, COST_MAX);
+        let conflict = 0u64; // TransparentKeyBuilder
+        let d = any_duration(4);
+        let exp = time_at(clock::get(), d);
+        let item = Item::New { key: k, conflict, cost, value: 2, expiration: exp };
+        let r = p.proc_.handle_insert_event(Ok(item));
+        vassert!(r.is_ok(), "handling a New item does not fail");
+        let now_res = raw(&p.store, k);
+        if resident_before.is_some() {
+            // a New item for a resident key only arises from a vetoed / colliding insert
+            vassert!(now_res == resident_before, "a New item for a resident key leaves the resident entry untouched");
+            vassert!(p.cb.rejects(2) == 1 && p.cb.total(2) == 1, "the refused value is handed to on_reject exactly once");
+        } else if let Some(e) = now_res {
+            vassert!(e.val == 2 && e.exp == exp, "an admitted item is stored with its value and deadline");
+            vassert!(p.policy.cost(&k) == cost + isz, "C16: the charge is the given cost plus the internal overhead unless ignored");
+            vassert!(p.cb.total(2) == 0, "an admitted value is not handed to any callback");
+        } else {
+            vassert!(p.cb.rejects(2) == 1 && p.cb.total(2) == 1, "a rejected value is handed to on_reject exactly once");
+            vassert!(p.cb.cost_of(2) == cost + isz, "C16: the cost reported to on_reject is the charged cost");
+            vassert!(!p.policy.contains(&k), "a rejected key is not charged");
+        }
+        // victims: a resident that disappeared was evicted through on_evict with its charge
+        for (e, t) in [(a, 0u64), (b, 1u64)] {
+            if let Some(e) = e {
+                if e.key != k {
+                    let still = raw(&p.store, e.key).is_some();
+                    vassert!(still == (p.cb.total(t) == 0), "C08: a resident value is either still resident or was handed to exactly one callback");
+                    if !still {
+                        vassert!(p.cb.evicts(t) == 1, "an evicted value goes to on_evict exactly once");
+                        let ch = if t == 0 { ents[0].unwrap().1 } else { ents[1].unwrap().1 };
+                        vassert!(p.cb.cost_of(t) == ch && p.cb.index_of(t) == e.key, "C16: the cost reported to on_evict is the victim's charged cost");
+                    }
+                }
+            }
+        }
+        vcover!(resident_before.is_none() && now_res.is_some() && p.cb.all() == 0, "[new] admitted without victims");
+        vcover!(resident_before.is_none() && now_res.is_some() && p.cb.all() == 2, "[new] admitted with two victims");
+        vcover!(resident_before.is_none() && now_res.is_none(), "[new] rejected");
+        vcover!(resident_before.is_some(), "[new] New for a resident key");
+    } else if ev == EV_UPDATE {
+        let cost = nd::any_i64_in(0, COST_MAX);
+        let ext = nd::any_i64_in(0, COST_MAX);
+        let item = Item::Update { key: k, cost, external_cost: ext };
+        let r = p.proc_.handle_insert_event(Ok(item));
+        vassert!(r.is_ok(), "handling an Update item does not fail");
+        if resident_before.is_some() {
+            vassert!(p.policy.cost(&k) == cost + ext + isz, "C16: an update re-charges the entry with the new cost plus internal overhead");
+        } else {
+            vassert!(!p.policy.contains(&k), "an Update for an absent key charges nothing");
+        }
+        vassert!(raw(&p.store, k) == resident_before, "an Update item does not touch the store");
+        vassert!(p.cb.all() == 0, "an Update item triggers no callback");
+        vcover!(resident_before.is_some(), "[update] update of a resident");
+        vcover!(resident_before.is_none(), "[update] update of an absent key");
+    } else if ev == EV_DELETE {
+        let conflict = 0u64;
+        let item = Item::Delete { key: k, conflict };
+        let r = p.proc_.handle_insert_event(Ok(item));
+        vassert!(r.is_ok(), "handling a Delete item does not fail");
+        vassert!(raw(&p.store, k).is_none() && !p.policy.contains(&k), "after a Delete the key is neither resident nor charged");
+        if let Some(e) = resident_before {
+            vassert!(p.cb.exits(e.val) == 1 && p.cb.all() == 1, "the removed value is handed to on_exit exactly once");
+        } else {
+            vassert!(p.cb.all() == 0, "deleting an absent key triggers no callback");
+        }
+        vcover!(resident_before.is_some(), "[delete] delete of a resident");
+    } else {
+        // cleanup tick at an arbitrary later instant
+        let now = clock::advance_nd(8);
+        p.tick();
+        for (e, t) in [(a, 0u64), (b, 1u64)] {
+            if let Some(e) = e {
+                let still = raw(&p.store, e.key).is_some();
+                let elapsed = !e.exp.is_zero() && now >= th::deadline(&e.exp);
+                vassert!(still || elapsed, "C05: cleanup never removes an entry whose TTL has not elapsed (or that has none)");
+                vassert!(still == (p.cb.total(t) == 0), "C08: resident or handed to exactly one callback");
+                if !still {
+                    vassert!(p.cb.evicts(t) == 1, "an expired value goes to on_evict exactly once");
+                    let ch = if t == 0 { ents[0].unwrap().1 } else { ents[1].unwrap().1 };
+                    vassert!(p.cb.cost_of(t) == ch, "C16: the cost reported for an expired entry is its charged cost");
+                }
+                if !e.exp.is_zero() && now >= th::deadline(&e.exp) + Duration::from_secs(1) {
+                    vassert!(!still, "C05: an entry whose TTL elapsed more than one bucket width ago is reclaimed by the next cleanup pass");
+                }
+            }
+        }
+        vcover!(p.cb.all() == 2, "[tick] two entries reclaimed by one tick");
+        vcover!(p.cb.all() == 0 && a.is_some(), "[tick] nothing reclaimed");
+    }
+    // invariants after the event
+    vassert!(p.sp_ok(k), "I-SP: the addressed key is resident iff it is charged");
+    let mut n = if raw(&p.store, k).is_some() { 1 } else { 0 };
+    for e in [a, b] {
+        if let Some(e) = e {
+            if e.key != k {
+                vassert!(p.sp_ok(e.key), "I-SP: every other key is resident iff it is charged");
+                vassert!(em_ok(&p.store, e.key), "I-EM: every other key stays filed under its own deadline");
+                if raw(&p.store, e.key).is_some() {
+                    n += 1;
+                }
+            }
+        }
+    }
+    vassert!(em_ok(&p.store, k), "I-EM: the addressed key is filed exactly under its deadline");
+    vassert!(p.cache.len() == n && policy_len(&p.policy) == n, "len() equals the number of charged entries");
+    let (sum, _cnt, nonneg) = policy_sum(&p.policy);
+    vassert!(policy_used(&p.policy) == sum && nonneg, "I-P: the charged total equals the sum of the per-entry charges");
+    vassert!(p.cb.bad.load(Ordering::SeqCst) == 0, "no callback received an empty or foreign value");
+    let _ = charge_before;
+    // dropping channels / Arcs / maps is irrelevant to every property and expensive for CBMC
+    std::mem::forget(p);
+}
+
+cache_harness! {
+    [kani::unwind(6)]
+    fn c06_proc_new() {
+        proc_step(EV_NEW);
+    }
+}
+cache_harness! {
+    [kani::unwind(6)]
+    fn c06_proc_update() {
+        proc_step(EV_UPDATE);
+    }
+}
+cache_harness! {
+    [kani::unwind(6)]
+    fn c06_proc_delete() {
+        proc_step(EV_DELETE);
+    }
+}
+cache_harness! {
+    [kani::unwind(6)]
+    fn c06_proc_tick() {
+        proc_step(EV_TICK);
+    }
+}
+
+cache_harness! {
+    [kani::unwind(6)]
+    fn probe_fixture_only() {
+        let cfg = any_cfg();
+        let (p, a, b, _ents) = any_parked(TransparentKeyBuilder::<u64>::default(), 0, cfg, Some(true));
+        vassert!(p.cache.len() <= 2, "fixture has at most two residents");
+        vcover!(a.is_some() && b.is_some(), "two residents");
+        std::mem::forget(p);
+    }
+}
+
+cache_harness! {
+    [kani::unwind(6)]
+    fn probe_update_min() {
+        let cfg = any_cfg();
+        let (mut p, a, b, _ents) = any_parked(TransparentKeyBuilder::<u64>::default(), 0, cfg, Some(true));
+        let k = nd::any_u64();
+        let cost = nd::any_i64_in(0, COST_MAX);
+        let before = p.policy.contains(&k);
+        let item = Item::Update { key: k, cost, external_cost: 0 };
+        let r = p.proc_.handle_insert_event(Ok(item));
+        vassert!(r.is_ok(), "handling an Update item does not fail");
+        vassert!(p.policy.contains(&k) == before, "update does not change residency");
+        vcover!(before, "resident updated");
+        std::mem::forget(p);
+    }
+}
